@@ -112,17 +112,27 @@ def inventory(repo, eff):
 
 
 def memo_exempt(ev) -> bool:
-    """`TABLE[key] = value` where every free name of value is part of the key: the entry is a function of its key"""
+    """`TABLE[key] = value` inside a function is a sound memo when the key is made of plain parameter names and EVERY parameter
+    the function reads (self / cls included — they stand for state) is part of the key: then whatever the function computes is
+    a function of the key.  Anything else (a key computed by a call such as x.tobytes(), a parameter left out of the key) is
+    reported."""
     n = ev.node
     if not (isinstance(n, ast.Assign) and len(n.targets) == 1 and isinstance(n.targets[0], ast.Subscript)):
         return False
-    key = {x.id for x in ast.walk(n.targets[0].slice) if isinstance(x, ast.Name)}
-    if not key or any(isinstance(x, (ast.Call, ast.Attribute)) for x in ast.walk(n.targets[0].slice)):
+    tgt = n.targets[0]
+    if any(isinstance(x, (ast.Call, ast.Attribute, ast.Subscript)) for x in ast.walk(tgt.slice)):
         return False
-    free = {x.id for x in ast.walk(n.value) if isinstance(x, ast.Name)}
-    import builtins
-    free = {x for x in free if not hasattr(builtins, x)}
-    return free <= key
+    key = {x.id for x in ast.walk(tgt.slice) if isinstance(x, ast.Name)}
+    fn = ev.fi.node
+    params = {p.arg for p in fn.args.posonlyargs + fn.args.args + fn.args.kwonlyargs}
+    if fn.args.vararg or fn.args.kwarg or not key or not key <= params:
+        return False
+    rebound = {t.id for a in ast.walk(fn) if isinstance(a, (ast.Assign, ast.AugAssign, ast.AnnAssign, ast.For, ast.NamedExpr))
+               for t in ast.walk(a.targets[0] if isinstance(a, ast.Assign) else a.target) if isinstance(t, ast.Name) and isinstance(t.ctx, ast.Store)}
+    if key & rebound:
+        return False
+    used = {x.id for x in ast.walk(fn) if isinstance(x, ast.Name) and isinstance(x.ctx, ast.Load) and x.id in params}
+    return used <= key
 
 
 def crc_reset_rule(ctx, repo, eff):
@@ -135,11 +145,30 @@ def crc_reset_rule(ctx, repo, eff):
     # of the same register (other statements may come and go — only the order of the register calls matters)
     reg_attrs = set()
 
+    # local aliases of a field of self (`register = self._crc_register`), assigned once and never re-bound
+    alias = {}
+    rebound = set()
+    for n_ in ast.walk(cc.node):
+        if isinstance(n_, (ast.Assign, ast.AnnAssign)) and n_.value is not None:
+            t_ = n_.targets[0] if isinstance(n_, ast.Assign) else n_.target
+            if isinstance(t_, ast.Name):
+                v_ = n_.value
+                if t_.id in alias or t_.id in rebound:
+                    rebound.add(t_.id)
+                    alias.pop(t_.id, None)
+                elif isinstance(v_, ast.Attribute) and isinstance(v_.value, ast.Name) and v_.value.id == "self":
+                    alias[t_.id] = v_.attr
+                else:
+                    rebound.add(t_.id)
+
     def reg_call(node):
-        """(attr of self holding the register, method) if node is self.<attr>.<method>(...)"""
-        if isinstance(node, ast.Call) and isinstance(node.func, ast.Attribute) and isinstance(node.func.value, ast.Attribute) \
-                and isinstance(node.func.value.value, ast.Name) and node.func.value.value.id == "self" and node.func.attr in ("init", "update", "digest"):
-            return node.func.value.attr, node.func.attr
+        """(attr of self holding the register, method) if node is self.<attr>.<method>(...) or <alias of self.<attr>>.<method>(...)"""
+        if isinstance(node, ast.Call) and isinstance(node.func, ast.Attribute) and node.func.attr in ("init", "update", "digest"):
+            recv = node.func.value
+            if isinstance(recv, ast.Attribute) and isinstance(recv.value, ast.Name) and recv.value.id == "self":
+                return recv.attr, node.func.attr
+            if isinstance(recv, ast.Name) and recv.id in alias:
+                return alias[recv.id], node.func.attr
         return None
     problems = []
 
@@ -282,6 +311,9 @@ def shared_rules(ctx, repo, eff):
             # only the register's own state, written by the register's own methods, is covered by the re-initialisation proof
             reg_only = ev.via and ev.via[0] == calc_q and all(v.startswith("etsi.crc.crc:") and "Register" in v for v in ev.via[1:]) \
                 and ev.how.startswith("attribute store .") and ev.how.split(".", 1)[1].split()[0] in (reg_fields | {"register"})
+            # the register's update() seen as an in-place call on an unresolved receiver, directly inside calculate_checksum
+            # (its position after init() is what the path-order rule proves)
+            reg_only = reg_only or (ev.via == (calc_q,) and ev.how in (".update() (in place)",))
             if reg_only and len(proved_regs) == n_regs:
                 notes.append(f"{ev.fi.qualname}:{ev.line} uses the shared calculator through calculate_checksum (re-initialised before use: shared/crc-reset-before-use)")
                 continue
@@ -314,6 +346,16 @@ def args_rules(ctx, repo, eff):
                 continue
             by_fp.setdefault((ev.fi.qualname, ev.origin[1]), []).append(ev)
     ctx.extra["parameter_effects_with_unresolved_receiver"] = fuzzy
+    # exposure: an in-place operation on a parameter matters when the object can come from outside — the function has no caller
+    # inside the library (it is API surface only), or some library caller hands it one of ITS OWN parameters / a process-lifetime
+    # object (then the effect shows up at that caller too).  A helper that every library call site feeds with an object the
+    # caller created itself (output-parameter style: fill / correct a work table, initialise a new burst) is internal.
+    callers = {}
+    for c, ts in eff.calls.items():
+        for t in ts:
+            callers.setdefault(t, set()).add(c)
+    passed_on = {ev.via[0] for ev in eff.events.values() if ev.via and not ev.fuzzy and ev.origin[0] in ("P", "S")}
+    internal = 0
     seen_exc = set()
     for f in eff.funcs:
         if not in_scope(f.qualname):
@@ -329,8 +371,13 @@ def args_rules(ctx, repo, eff):
                 seen_exc.add((f.qualname, p))
                 ctx.ob("args/exception-is-local", f"{f.qualname}({p})", bool(evs), f"{exc}; effect: {evs[0].how if evs else 'NOT FOUND — the table entry is stale'}", f.loc)
                 continue
+            if evs and callers.get(f.qualname) and f.qualname not in passed_on:
+                internal += 1
+                ctx.info(f"{f.qualname}({p}) works in place on its argument ({evs[0].how}); all {len(callers[f.qualname])} library caller(s) pass objects they created themselves — internal output-parameter helper")
+                evs = []
             ctx.ob("args/buffers-unchanged", f"{f.qualname}({p})", not evs,
                    "; ".join(f"line {e.line}: {e.how}" + (f" through {' <- '.join(x.split(':')[-1] for x in e.via)}" if e.via else "") for e in evs[:3]), f"{f.module.relpath}:{evs[0].line if evs else f.node.lineno}")
+    ctx.extra["internal_output_parameter_helpers"] = internal
     for k in ARG_EXCEPTIONS:
         if k not in seen_exc:
             ctx.info(f"exception table entry {k} names a function / parameter that no longer exists (ignored)")
